@@ -258,6 +258,7 @@ type line =
   | LHold of string * string * bytes
   | LDrain of string * string
   | LSetSettings of n * bool * n
+  | LRmBlob of bytes                (* a blob file disappears from a closed store (content given) *)
   | LOp of string * op           (* printable name, model op *)
   | LObs
   | LCfg of string list
@@ -272,6 +273,7 @@ let parse_line (cfg : config ref) (l : string) : line option =
   | ["hold"; slot; k] -> Some (LHold (l, slot, key_of k))
   | ["drain"; slot] -> Some (LDrain (l, slot))
   | ["setsettings"; v; p; nn] -> Some (LSetSettings (n_of_decimal v, p = "1", n_of_decimal nn))
+  | ["rmblob"; c] -> Some (LRmBlob (bytes_of_string (parse_chunk c)))
   | ["put"; k] -> Some (LOp (l, OpPut (key_of k, [])))
   | ["put"; k; cs] -> Some (LOp (l, OpPut (key_of k, parse_chunks cs)))
   | ["abort"; k] -> Some (LOp (l, OpAbort (key_of k, [])))
@@ -361,6 +363,10 @@ let run_lines (out : Buffer.t) (lines : string list) (fs0 : fs) (fault : int opt
     | Some (LSetSettings (v, p, nn)) ->
       let d = enc_settings v p nn in
       let fs' = { !w.wfs with files = set_path !w.wfs.files PSettings { fdata = d; fsynced = length d } } in
+      w := { !w with wfs = fs' }
+    | Some (LRmBlob c) ->
+      let p = PCas (hexpath (hash_fn c)) in
+      let fs' = { !w.wfs with files = List.filter (fun (q, _) -> q <> p) !w.wfs.files } in
       w := { !w with wfs = fs' }
     | Some (LOp (name, o)) ->
       let ((r, hd'), w') = step hash_fn !hd o !w in
